@@ -85,6 +85,12 @@ var extra = []string{
 	"steps:\n  - type: script\n    command: z\n  - type: 7\n",
 	"steps:\n  - group: ~\n    steps: ~\n  - group: g2\n    steps:\n      - group: inner\n        steps: [wait, {command: c}]\n",
 	"a: &a {command: shared}\nsteps:\n  - *a\n  - <<: *a\n    label: l\n",
+	// a multi-line string beginning with a tab in a generic position (listed finding: YAML marshalling fails)
+	"0:\n 0: \"\\t\\n\\n\"\n",
+	"steps:\n  - command: x\n    note: {deep: \"\\tindented\\nsecond line\"}\n",
+	// anchor names redefined: the second collection is not the first
+	"steps:\n  - group: one\n    steps: &inner\n      - command: make\n  - group: two\n    steps: &inner\n      - command: make test\n      - wait\n      - command: make lint\n",
+	"steps:\n  - &s {command: a}\n  - &s {command: b, label: l}\n  - *s\n",
 	// the only fallback sits inside a group (one and two levels down): it must still surface as a warning
 	"steps:\n  - group: g\n    steps:\n      - mystery: 1\n",
 	"steps:\n  - command: ok\n  - group: g\n    steps:\n      - command: fine\n      - group: inner\n        steps:\n          - type: nope\n  - wait\n",
@@ -105,8 +111,10 @@ var extra = []string{
 // ---- known findings (read-only) ----
 
 var (
-	knownHits int
-	knownWhat string
+	knownHits  int
+	knownWhat  string
+	knownHits2 int
+	knownWhat2 string
 )
 
 func nonFinite(err error) bool {
@@ -315,6 +323,21 @@ func check(data []byte) (msg string, inScope bool) {
 	if fallbacks > 0 && o.err == nil {
 		return fmt.Sprintf("%d step(s) fell back to unknown steps but no warning was returned", fallbacks), true
 	}
+	// the same count against yaml.v3's own decoder (which expands aliases and merges by itself):
+	// the library's generic decoder is part of what is being checked
+	var ref any
+	if yaml.Unmarshal(data, &ref) == nil {
+		var refSteps any
+		switch g := ref.(type) {
+		case []any:
+			refSteps = g
+		case map[string]any:
+			refSteps = g["steps"]
+		}
+		if msg := sameShape("steps", o.p.Steps, refSteps); msg != "" {
+			return msg, true
+		}
+	}
 	if _, err := json.Marshal(o.p); err != nil {
 		if nonFinite(err) {
 			if what, ok := knownOpen("C13", "non-finite-float"); ok {
@@ -334,9 +357,46 @@ func check(data []byte) (msg string, inScope bool) {
 		_, err = yaml.Marshal(o.p)
 		return
 	}(); err != nil {
+		// yaml.v3 cannot write a multi-line string that begins with a space or a tab inside a node it
+		// re-reads (Node.Encode, used by the ordered map's MarshalYAML): a listed finding
+		if leadingWhitespaceMultiline(generic) {
+			if what, ok := knownOpen("C13", "yaml-multiline-leading-whitespace"); ok {
+				knownHits2++
+				knownWhat2 = what
+				return "", true
+			}
+		}
 		return "yaml.Marshal of the parsed pipeline fails: " + err.Error(), true
 	}
 	return "", true
+}
+
+// leadingWhitespaceMultiline: some string (key or value) of a decoded document spans several lines
+// and begins with a space or a tab.
+func leadingWhitespaceMultiline(v any) bool {
+	bad := func(s string) bool {
+		return strings.Contains(s, "\n") && (strings.HasPrefix(s, " ") || strings.HasPrefix(s, "\t"))
+	}
+	switch x := v.(type) {
+	case string:
+		return bad(x)
+	case []any:
+		for _, e := range x {
+			if leadingWhitespaceMultiline(e) {
+				return true
+			}
+		}
+	case *ordered.Map[string, any]:
+		found := false
+		x.Range(func(k string, e any) error {
+			if bad(k) || leadingWhitespaceMultiline(e) {
+				found = true
+			}
+			return nil
+		})
+		return found
+	}
+	return false
 }
 
 func mutate(r *rand.Rand, in []byte, other []byte) []byte {
@@ -509,6 +569,9 @@ func TestC13(t *testing.T) {
 			}
 		}
 	}
+	if knownHits2 > 0 {
+		fmt.Printf("KNOWN-FINDING: property=C13 %s (%d inputs)\n", knownWhat2, knownHits2)
+	}
 	if knownHits > 0 {
 		fmt.Printf("KNOWN-FINDING: property=C13 %s (%d inputs)\n", knownWhat, knownHits)
 	}
@@ -529,4 +592,22 @@ func FuzzParse(f *testing.F) {
 			t.Fatalf("%s\n--- input ---\n%s", msg, data)
 		}
 	})
+}
+
+// sameShape: the parsed step list has as many steps as yaml.v3 sees entries, recursively inside groups.
+func sameShape(where string, steps pipeline.Steps, ref any) string {
+	list, _ := ref.([]any)
+	if len(steps) != len(list) {
+		return fmt.Sprintf("%s: %d steps, but the YAML library's own decoder sees %d entries", where, len(steps), len(list))
+	}
+	for i, st := range steps {
+		if g, ok := st.(*pipeline.GroupStep); ok {
+			if m, ok := list[i].(map[string]any); ok {
+				if msg := sameShape(fmt.Sprintf("%s[%d].steps", where, i), g.Steps, m["steps"]); msg != "" {
+					return msg
+				}
+			}
+		}
+	}
+	return ""
 }
